@@ -31,6 +31,13 @@ struct Conv {
     static long from(const T &x) { return (long) x; }
     static T one() { return (T) 1; }
 };
+// unsigned: the model's 1000000 stands for 2^31, the value whose multiples wrap around
+template <>
+struct Conv<unsigned> {
+    static unsigned to(long v) { return v == 1000000 ? 0x80000000u : (unsigned) v; }
+    static long from(const unsigned &x) { return x == 0x80000000u ? 1000000 : (long) x; }
+    static unsigned one() { return 1u; }
+};
 // the model's special values: 1000000 = the first power of two above which a quarter is absorbed, +-2000000 = +-infinity
 template <>
 struct Conv<float> {
@@ -73,10 +80,22 @@ void run_num(const Execution &ex) {
     using Sub = decltype(o.subscribe([](T) {}));
     std::map<int, Sub> subs;
     std::vector<std::pair<int, long>> notes;
+    // crowd=N: N further subscribers that stay subscribed for the whole history (subscribed before the model's subscribers 1 and 2);
+    // each of them has to be notified exactly when and with what the model's subscribers are. Only in histories without moves.
+    int ncrowd = (int) ex.cfg.num("crowd", 0);
+    std::vector<int> ccount(ncrowd, 0);
+    std::vector<long> cval(ncrowd, 0);
+    std::vector<Sub> crowd;
+    for (int k = 0; k < ncrowd; ++k)
+        crowd.push_back(o.subscribe([k, &ccount, &cval](T val) {
+            ++ccount[k];
+            cval[k] = Conv<T>::from(val);
+        }));
     int i = 0;
     for (const auto &st : ex.steps) {
         std::string op = st.str("op");
         long v = st.num("v", 0);
+        std::fill(ccount.begin(), ccount.end(), 0);
         long ret = 0;
         bool has_ret = false;
         notes.clear();
@@ -146,7 +165,19 @@ void run_num(const Execution &ex) {
             if (k) s += ",";
             s += "[" + std::to_string(notes[k].first) + "," + std::to_string(notes[k].second) + "]";
         }
-        out().raw(s + "]");
+        s += "]";
+        if (ncrowd > 0) {
+            int mn = ccount[0], mx = ccount[0], who_mn = 0, who_mx = 0;
+            bool same = true;
+            for (int k = 0; k < ncrowd; ++k) {
+                if (ccount[k] < mn) mn = ccount[k], who_mn = k;
+                if (ccount[k] > mx) mx = ccount[k], who_mx = k;
+                if (ccount[k] > 0 && ccount[who_mx] > 0 && cval[k] != cval[who_mx]) same = false;
+            }
+            s += ",\"crowd\":{\"min\":" + std::to_string(mn) + ",\"max\":" + std::to_string(mx) + ",\"who_min\":" + std::to_string(who_mn) +
+                 ",\"who_max\":" + std::to_string(who_mx) + ",\"same\":" + (same ? "true" : "false") + ",\"val\":" + std::to_string(cval[who_mx]) + "}";
+        }
+        out().raw(s);
         ++i;
     }
 }
